@@ -35,7 +35,8 @@ class InjectedLoopError(RuntimeError):
 
 
 class Metric7(optrun.Metric):
-    """optrun.Metric + 'base_at': evaluation index at which a BaseException is raised"""
+    """optrun.Metric + 'base_at' (evaluation index at which a BaseException is raised) and the fault
+    'only_size': [k, kind] - every graph fails except those with exactly k nodes (one surviving class)"""
 
     def __init__(self, inner, base_at, fired):
         super().__init__(inner.kind, inner.faults, inner.log, inner.primary)
@@ -48,6 +49,13 @@ class Metric7(optrun.Metric):
             self.calls += 1
             self.fired.append('objective_base')
             raise InjectedBase('injected non-Exception failure in the objective')
+        only = self.faults.get('only_size')
+        if only and len(g.nodes) != only[0]:
+            self.log.append({'i': self.calls, 'id': g.descriptive_id, 'fault': only[1]})
+            self.calls += 1
+            if only[1] == 'raise':
+                raise RuntimeError('injected metric failure')
+            return None if only[1] == 'none' else float('nan')
         return super().__call__(g)
 
 
@@ -178,9 +186,10 @@ def run_case(case):
             try:
                 opt, objective, gen = optrun.make_optimiser(cfg, log, history_dir)
                 rec['n_initial'] = len(opt.initial_graphs or [])
-                if loop and loop['via'] == 'objective_base':
+                base_at = loop['at'] if loop and loop['via'] == 'objective_base' else None
+                if base_at is not None or (cfg['objective'].get('faults') or {}).get('only_size'):
                     key = next(iter(objective.quality_metrics))
-                    objective.quality_metrics[key] = Metric7(objective.quality_metrics[key], loop['at'], fired)
+                    objective.quality_metrics[key] = Metric7(objective.quality_metrics[key], base_at, fired)
                 if loop and loop['via'] == 'mutation':
                     fm = FaultyMutation(loop['at'], fired)
                     # same list object is shared by GPAlgorithmParameters and the operator agent
@@ -522,6 +531,10 @@ class Builder:
         if bc:
             bad = sorted(n(u) for u, r in rec['individuals'].items()
                          if r['n_nodes'] % bc[0] == bc[1] and not r['surrogate'])
+        only = (self.cfg['objective'].get('faults') or {}).get('only_size')
+        if only:
+            bad = sorted(set(bad) | set(n(u) for u, r in rec['individuals'].items()
+                                        if r['n_nodes'] != only[0] and not r['surrogate']))
         invalid = sorted(n(u) for u, r in rec['individuals'].items() if not r['valid'])
         bad = sorted(set(bad) | set(invalid))      # an individual recorded with an invalid fitness
         exn = observed_exn(rec, self.loop)
@@ -603,6 +616,26 @@ def gen_cases(ctx):
             if cfg['optimiser'] == 'surrogate' and i % 2 == 0:
                 cfg['num_of_generations'] = 6            # reaches a surrogate-evaluated generation
             cases.append({'group': 'metric:' + tag, 'cfg': cfg})
+            i += 1
+    # A2. populations that shrink to exactly ONE survivor: only the first evaluation succeeds (all offspring
+    # fail from the first generation on), or every graph fails except the class of one initial graph
+    INITIAL_SIZES = {'single': [1], 'chain': [3], 'two': [2, 3], 'diamond': [3]}
+    combos = [('evo', 'single'), ('evo', 'two'), ('evo', 'chain'), ('surrogate', 'single'),
+              ('pop_random_mutation', 'two'), ('random_mutation', 'single')]
+    if not quick:
+        combos = [(o, ini) for o in kinds for ini in ('single', 'chain', 'two', 'diamond')]
+    for rep in range(ctx.budget(1, 2)):
+        for j, (opt, ini) in enumerate(combos):
+            cfg = base_cfg(rng, opt, i)
+            cfg['initial'] = ini
+            cfg['pop_size'] = rng.choice([3, 5, 6])
+            cfg['mutation_prob'] = rng.choice([0.3, 0.8, 1.0])
+            kind = KINDS[i % 3]
+            if (j + rep) % 2 == 0:
+                cfg['objective']['faults'] = {'all_after': [1, kind]}
+            else:
+                cfg['objective']['faults'] = {'only_size': [INITIAL_SIZES[ini][0], kind], 'all_after': [rng.choice([2, 3]), kind]}
+            cases.append({'group': 'metric:one_survivor', 'cfg': cfg})
             i += 1
     # B. persistence faults (populational classes dump; the random-search family never does)
     ios = [{'mode': 'ok'}, {'mode': 'block_from', 'n': 0}, {'mode': 'block_from', 'n': 1}, {'mode': 'block_from', 'n': 2},
